@@ -313,7 +313,7 @@ impl Family for ReadNFamily {
             let sc = if s.is_empty() { "-".to_string() } else { s.join(",") };
             let mut ops = Vec::new();
             for count in [0usize, 1, 2, 5] {
-                for attempts in [1usize, 2, 3, 6] {
+                for attempts in [1usize, 2, 3, 6, 1 << 32, (1 << 32) + 1, usize::MAX] {
                     ops.push(format!("readn {} {} {} {}", count, attempts, src, sc));
                 }
             }
@@ -341,7 +341,8 @@ impl Family for ReadNFamily {
                         3 => rng.range(1, 70000),
                         _ => rng.range(1, 40),
                     } as usize;
-                    let attempts = *rng.pick(&[1u64, 1, 2, 3, 5, 8, 1000]) as usize;
+                    // incl. limits that do not fit 32 bits (a script ends in EOF, so the loop stops long before)
+                    let attempts = *rng.pick(&[1u64, 1, 2, 3, 5, 8, 1000, 1 << 32, (1 << 32) + 1, 3 << 32, u64::MAX]) as usize;
                     let slen = rng.range(0, 9) as usize;
                     let script = gen_script(rng, slen, count.min(64));
                     let srclen = match rng.below(4) {
